@@ -942,9 +942,16 @@ class DictSystem:
     def observe(self):
         s, ld = self.sched, self.ld
         out = [self.mutex.owner if self.mutex._locked else -1]
-        for key in reversed(list(ld._dict.keys())):    # the model inserts new keys at the FRONT of its list
-            dqv = ld._dict[key]
-            out += [key, len(dqv)] + [wl.creator for wl in dqv]
+        try:
+            for key in reversed(list(ld._dict.keys())):    # the model inserts new keys at the FRONT of its list
+                dqv = ld._dict[key]
+                out += [key, len(dqv)] + [wl.creator for wl in dqv]
+        except (TypeError, AttributeError):
+            # the private layout is not the one the model describes (per key a deque of waiter locks): the observation
+            # is a value the model never produces (the correspondence then reports the difference) and the run goes on,
+            # so that the layout-independent monitors still judge mutual exclusion, deadlock and errors
+            self.opaque = True
+            return [-7]
         out.append(-2)
         for w in s.workers:
             ml = getattr(w, "my_lock", None)
@@ -957,15 +964,19 @@ class DictSystem:
         for w in s.workers:
             if w.error is not None:
                 raise Violation("thread %d raised %r" % (w.idx, w.error))
-        # holders: threads between the end of acquire() and the start of the release's mutex section
+        # holders: threads between the end of acquire() and the start of the release's mutex section (a fact about THIS
+        # implementation, whose release starts with the mutex: not used once the private layout is found to be another;
+        # the layout-independent judgement is DictBBSystem's)
         holders = collections.defaultdict(list)
         for w in s.workers:
+            if getattr(self, "opaque", False):
+                break
             if w.phase == "release" and w.pending and w.pending[0] == "acq" and w.pending[1] is self.mutex:
                 holders[w.key].append(w.idx)
         for key, hs in holders.items():
             if len(hs) > 1:
                 raise Violation("key %r is held by threads %r at the same time" % (key, hs))
-        if not self.mutex._locked:
+        if not self.mutex._locked and not getattr(self, "opaque", False):
             # dict entries exist exactly for the keys that some thread is using, and are never empty
             busy = set(w.key for w in s.workers if not w.done and w.phase in ("acquire", "release") and (
                 w.phase == "release" or (w.pending and (w.pending[1] is not self.mutex))))
@@ -986,6 +997,8 @@ class DictSystem:
 
     def note_arrivals(self):
         """FIFO: record the order in which waiter locks appear in the deques (called after every step)."""
+        if getattr(self, "opaque", False):
+            return
         for key, dqv in self.ld._dict.items():
             seen = self.arrived[key]
             for wl in dqv:
@@ -994,6 +1007,8 @@ class DictSystem:
                     seen.append(tag)
 
     def check_fifo(self):
+        if getattr(self, "opaque", False):
+            return
         for key, order in self.arrived.items():
             want = [t for t, _ in order]
             got = self.served[key]
@@ -1001,7 +1016,56 @@ class DictSystem:
                 raise Violation("key %r: arrival order %r but served in order %r" % (key, want, got))
 
 
-SYSTEMS = {"cond": CondSystem, "file": FileSystem, "dict": DictSystem, "store": StoreSystem}
+class DictBBSystem(DictSystem):
+    """The real LockDict judged from outside (monitor only, no model comparison, valid for ANY implementation of the
+    class): every thread pauses once inside the section (a scheduling point of its own), so two threads inside the
+    section of one key are seen as such whatever the private bookkeeping looks like."""
+    kind = "dictbb"
+
+    def _body(self, prog):
+        ld = self.ld
+
+        def body(w):
+            for key in prog:
+                w.key = key
+                w.phase = "acquire"
+                cm = ld.acquire(key)
+                cm.__enter__()
+                w.phase = "body"
+                self.served[key].append(w.idx)
+                self.sched.yield_point(("body", key))
+                w.phase = "release"
+                cm.__exit__(None, None, None)
+                w.phase = "idle"
+        return body
+
+    def observe(self):
+        return [0]
+
+    def note_arrivals(self):
+        pass
+
+    def check_fifo(self):
+        pass
+
+    def monitor(self):
+        s = self.sched
+        for w in s.workers:
+            if w.error is not None:
+                raise Violation("thread %d raised %r" % (w.idx, w.error))
+        inside = collections.defaultdict(list)
+        for w in s.workers:
+            if not w.done and w.phase == "body":
+                inside[w.key].append(w.idx)
+        for key, hs in inside.items():
+            if len(hs) > 1:
+                raise Violation("threads %r are inside the section of key %r at the same time" % (hs, key))
+        # a thread waiting for a key nobody is inside of and nobody else is about to enter must be able to move
+        if not s.all_done() and not any(s.enabled(i) for i in range(len(s.workers))):
+            raise Violation("deadlock: no thread can take a step, unfinished: %r" % [w.idx for w in s.workers if not w.done])
+
+
+SYSTEMS = {"cond": CondSystem, "file": FileSystem, "dict": DictSystem, "dictbb": DictBBSystem, "store": StoreSystem}
 
 
 def run_schedule(kind, progs, schedule, monitor=True, extend=False, choose=None):
